@@ -45,12 +45,14 @@ var (
 	syncF   multi
 	osF     multi
 	schedF  multi
+	timeF   multi
 	verbose = flag.Bool("v", false, "verbose")
 )
 
 func main() {
 	flag.Var(&syncF, "sync", "repo-relative file whose \"sync\" import is redirected to vsync")
 	flag.Var(&osF, "os", "repo-relative file whose \"os\" import is redirected to vos")
+	flag.Var(&timeF, "time", "repo-relative file whose \"time\" import is redirected to vtime (timers the harness fires)")
 	flag.Var(&schedF, "sched", "repo-relative file whose go statements / channel ops are redirected to sched")
 	flag.Parse()
 	if *out == "" {
@@ -95,6 +97,7 @@ func main() {
 	}
 	add("sync", syncF)
 	add("os", osF)
+	add("time", timeF)
 	add("sched", schedF)
 
 	nSites, nFiles := 0, 0
@@ -157,6 +160,13 @@ func main() {
 						fatal("%s does not import sync", name)
 					}
 					renameImport(f, modPath+"/pkg/verif/vsync", "sync")
+					changed = true
+				}
+				if sp["time"] {
+					if !astutil.RewriteImport(pkg.Fset, f, "time", modPath+"/pkg/verif/vtime") {
+						fatal("%s does not import time", name)
+					}
+					renameImport(f, modPath+"/pkg/verif/vtime", "time")
 					changed = true
 				}
 				if sp["os"] {
